@@ -1012,3 +1012,6 @@ RULES = [
     ("C14.NEGDIM", 1, rule_negdim),
     ("C14.PERANNOTATION", 2, rule_perannotation),
 ]
+
+from . import common as _common_purity
+RULES = RULES + _common_purity.purity_rules("C14")
